@@ -169,7 +169,7 @@ PROPS['C19'] = {
     'assumptions': ['url::Url::parse splits scheme / path / decoded query pairs as the harness composed them (checked: real parse result is compared field by field)'],
     'level_text': 'Kernel-checked for every HMAC function, secret, time and parameter set: code has exactly `digits` decimal digits, 31-bit truncation in bounds, '
                   'validity in [1, period], constant within a time window, parsed URIs never carry period 0, scheme/missing-secret/number/algorithm errors, '
-                  'later duplicate wins by fold; the code read as a decimal number is Truncate(HMAC(secret, time step)) mod 10^digits (C19_code_value), the truncation is the four hash bytes at the offset named by the last nibble, big endian, top bit masked, on every hash of at least 20 bytes (dynTrunc_spec), both combined end to end in C19_rfc6238, a URI written from parameters (base32 secret, issuer, decimal period and digits with any leading zeros, algorithm name) parses to exactly those parameters (C19_uri_roundtrip, parseUInt_decimal), the HMAC message is the time step big endian in 8 bytes and differs between windows (counterBytes_value, counterBytes_injective, C19_windows_hash_distinct); base32 (RFC 4648 with padding) decodes every encoded byte string back to itself (b32_roundtrip, C19_secret_roundtrip). The Lean model with its own SHA-1/256/512+HMAC is run against TOTP::from_str/value_at/get_secret on generated URIs.',
+                  'later duplicate wins by fold; the code read as a decimal number is Truncate(HMAC(secret, time step)) mod 10^digits (C19_code_value), the truncation is the four hash bytes at the offset named by the last nibble, big endian, top bit masked, on every hash of at least 20 bytes (dynTrunc_spec), both combined end to end in C19_rfc6238, the reported validity is exact (same code at every instant up to time+validity, which is the first instant of the next time step: C19_validity_exact), a URI written from parameters (base32 secret, issuer, decimal period and digits with any leading zeros, algorithm name) parses to exactly those parameters (C19_uri_roundtrip, parseUInt_decimal), the HMAC message is the time step big endian in 8 bytes and differs between windows (counterBytes_value, counterBytes_injective, C19_windows_hash_distinct); base32 (RFC 4648 with padding) decodes every encoded byte string back to itself (b32_roundtrip, C19_secret_roundtrip). The Lean model with its own SHA-1/256/512+HMAC is run against TOTP::from_str/value_at/get_secret on generated URIs.',
 }
 
 
